@@ -7,7 +7,7 @@ from .. import mspace
 
 ID = "C20"
 RULE = ("Mode M: EVERY duplicate-free ordered variable list of length 1..3 over ids {'a','b','ue'(unicode),7,0} x every bounds choice from "
-        "{(0,1),(-2,5),(1,1),(3,3)} (length 4: bounds from {(0,1),(-2,5)}) x every dictionary over a subset of the ids with/without an "
+        "{(0,1),(-2,3),(-2,5),(1,1),(3,3),(-1,3)} (equal hash sums included; length 3: the first four, length 4: the first two) x every dictionary over a subset of the ids with/without an "
         "unknown id x default_value in {None, callable} x dtype in {int64,int32,float64} for construct(); every sub-list (ordered, and nested "
         "lists of lists) of every context for boolean/integer from_list; every 0/1 mask for to_list (1-D and 2-D); boolean/integer variable "
         "index partition for every list; A / b / to_linalg on every 2x2 system of the C11 space. oracle: the statement, literally. "
@@ -15,7 +15,8 @@ RULE = ("Mode M: EVERY duplicate-free ordered variable list of length 1..3 over 
 ASSUMPTIONS = ["ids are duplicate-free (stated); dictionary values are distinct small integers (one of them 0) so that permutations and falsy values are visible"]
 BOUNDS = {"quick": "as in rule", "thorough": "as quick + length 4 with all four bounds, contexts of length 5"}
 IDS = ["a", "b", "ü", 7, 0]
-BMENU = [(0, 1), (-2, 5), (1, 1), (3, 3)]
+# (0,1), (-2,3) and (-1,3) have equal hash(lower)+hash(upper) (hash(-1) == -2): anything keyed by the hash of a variable confuses them
+BMENU = [(0, 1), (-2, 3), (-2, 5), (1, 1), (3, 3), (-1, 3)]
 # distinct values so that permutations are visible; one of them is 0 (a given 0 is a value, not "missing")
 VAL = {"a": 11, "b": 0, "ü": 13, 7: -14, 0: -15, "zz": 99}
 
@@ -23,7 +24,7 @@ VAL = {"a": 11, "b": 0, "ü": 13, 7: -14, 0: -15, "zz": 99}
 def var_lists(tier):
     out = []
     for n in (1, 2, 3, 4):
-        menu = BMENU if (n < 4 or tier == "thorough") else BMENU[:2]
+        menu = (BMENU if n < 3 else BMENU[:4]) if (n < 4 or tier == "thorough") else BMENU[:2]
         for ids in itertools.permutations(IDS, n):
             for bds in itertools.product(menu, repeat=n):
                 out.append((ids, bds))
@@ -179,7 +180,7 @@ def check_lists(part, tier, acc):
             if gb != wb or gi != wi:
                 acc.violation(None, case, {"what": "nested from_list differs", "boolean": gb, "integer": gi, "want_boolean": wb, "want_integer": wi})
         # to_list over every mask
-        variables = [puan.variable(i, BMENU[j % 4]) for j, i in enumerate(ctx)]
+        variables = [puan.variable(i, BMENU[j % 6]) for j, i in enumerate(ctx)]
         n = len(ctx)
         masks = list(itertools.product((0, 1), repeat=n))
         for mask in masks:
